@@ -3,6 +3,8 @@ behaviours are replayed into dask_array with observers that record observations 
 validates every observation against the L1 module it belongs to (Trace_Obs.tla)."""
 from __future__ import annotations
 
+import os
+
 import json
 
 from . import cases as casemod
@@ -97,10 +99,34 @@ CORPORA = {
     # boolean masks (NumPy and dask), dask integer arrays, vindex, Ellipsis
     "d1-index-1d": dict(acts=["Index", "Take"], maxlen=1, preset="1d", sim=False, smax=3, idxpad=2, emit_all=True, workers=4),
     "d1-index-1d-q": dict(acts=["Index", "Take"], maxlen=1, preset="1d", sim=False, smax=2, idxpad=1, emit_all=True, workers=4),
+    "d1-index-none": dict(acts=["IndexNone"], maxlen=1, preset="small", sim=False, emit_all=True, workers=4),
     "d1-index-nd": dict(acts=["Index", "Take"], maxlen=1, preset="lean", sim=False, lean=True, emit_all=True),
     "d1-advindex": dict(acts=["AdvIndex"], maxlen=1, preset="small", sim=False, emit_all=True, workers=4),
     "d2-advindex-after": dict(acts=["Index", "Transpose", "Elemwise", "Rechunk", "MaskSelect", "AdvIndex"], acts2=["AdvIndex", "Index"],
                               maxlen=2, preset="lean", sim=False, lean=True, workers=8),
+    # vindex / diagonal / masks as roots and under a consumer (mixed numpy-int / int key coordinates in their layers: C21)
+    "d1-diag": dict(acts=["Diagonal"], maxlen=1, preset="small", sim=False, emit_all=True),
+    "d2-adv-consumer": dict(acts=["AdvIndex", "Diagonal"], acts2=["Elemwise", "Reduce", "Index", "Transpose"], maxlen=2, preset="lean", sim=False,
+                            lean=True, workers=8, observe_all=True),
+    # creation arrays with user-pinned names under every operation the optimizer absorbs into them, then a consumer (C06)
+    "d2-named-creation": dict(acts=["AdvIndex", "Take", "Index", "Rechunk", "Transpose", "BroadcastTo", "Reshape", "FlipRoll"],
+                              acts2=["Reduce", "Elemwise", "Index"], maxlen=2, preset="cre", sim=False, lean=True, workers=4, observe_all=True),
+    # C02 grid contract: operands on different grids, a pushed-down operation, then a grid-dependent per-block function
+    "d4-grid-contract": dict(acts=["Rechunk"], acts2=["Elemwise"], acts3=["Take", "Index", "Rechunk", "BlockFirst"], maxlen=4, preset="lean1",
+                             sim=False, lean=True, workers=8, keep=lambda b: b["prog"][-1]["a"] == "BlockFirst"),
+    "d2-blockfirst": dict(acts=["Take", "Index", "Rechunk", "Elemwise", "Transpose", "FlipRoll", "Concat", "AdvIndex"], acts2=["BlockFirst"],
+                          maxlen=2, preset="lean", sim=False, lean=True, workers=4),
+    # C03: balanced rechunk; explicit rechunk (fused, may inherit the balancing); map_blocks with declared chunks
+    "d3-balance-declared": dict(acts=["RechunkSpec"], acts2=["Rechunk"], acts3=["BlockFirst"], maxlen=3, preset="lean1", sim=False, workers=4,
+                                keep=lambda b: (b["prog"][-1].get("mode") == "half" and b["prog"][1].get("balance") and b["prog"][2]["x"] == 2
+                                                and b["prog"][3]["x"] == 3)),
+    # two different data-dependent selections of one source, then stacked / concatenated (C28: sizes unknown, shapes differ)
+    "d3-unknown-pair": dict(acts=["MaskSelect"], acts2=["MaskSelect"], acts3=["StackMismatch", "Concat"], maxlen=3, preset="1d", sim=False,
+                            workers=4),
+    # C19: map_overlap with a local stencil, every boundary kind, depth 1-2, every chunking (blocks smaller than the depth included)
+    "d1-overlap": dict(acts=["Overlap"], maxlen=1, preset="win", sim=False, emit_all=True),
+    # pad with a callable mode that rewrites its vector in place (np.pad's contract), all chunk grids of the 1-D sources
+    "d1-pad-udf": dict(acts=["PadRepeat"], maxlen=1, preset="small", sim=False, emit_all=True, keep=lambda b: b["prog"][1].get("mode") == "udf"),
     # random arrays: bases, and every lean operation on a random base (C06, C07, C23)
     "d1-random": dict(acts=["Random"], maxlen=1, preset="lean1", sim=False, lean=False, emit_all=True),
     "d2-random": dict(acts=["Random"], acts2=ALL, maxlen=2, preset="lean1", sim=False, lean=True, workers=8, excl=EXCL_DEEP),
@@ -123,6 +149,9 @@ CORPORA = {
     "d2-sr2": dict(acts=["Index", "Rechunk"], maxlen=2, preset="lean2", sim=False, lean=True, workers=4, observe_all=True),
     "d2-sr3": dict(acts=["Index", "Rechunk"], maxlen=2, preset="lean3", sim=False, lean=True, workers=4, observe_all=True),
     "d3-sr1-all": dict(acts=["Index", "Rechunk"], maxlen=3, preset="lean1", sim=False, lean=True, workers=4, observe_all=True),
+    # rechunk; window; rechunk: reads of one source absorbed at equal grids with different windows (C14 / C06: their names)
+    "d3-rsr1": dict(acts=["Rechunk"], acts2=["Index"], acts3=["Rechunk"], maxlen=3, preset="lean1", sim=False, lean=True, workers=4,
+                    group=lambda b: json.dumps([a for a in b["prog"] if a["a"] != "Index"], sort_keys=True)),
     # slice / rechunk chains (what gets composed and pushed into sources)
     "d3-sr1": dict(acts=["Index", "Rechunk"], maxlen=3, preset="lean1", sim=False, lean=True, workers=4),
 }
@@ -181,10 +210,15 @@ def run_plans(chk, rd, plans, observers, *, opts=None, module="Trace_Obs", shard
 
     opts = dict(opts or {})
     evs, refs, stats = [], {}, {}
+    only = os.environ.get("VERIF_DEV_ONLY_CORPUS")      # development aid (never set by a registered command)
+    if only:
+        plans = [p for p in plans if p[0] in only.split(",")]
     for name, maxvar, stride in plans:
         kw = dict(CORPORA[name])
         observe_all = kw.pop("observe_all", False)
         keep = kw.pop("keep", None)
+        group = kw.pop("group", None)
+        final_only = kw.pop("final_only", False)
         t0 = _t.time()
         behs, res = replay.generate_programs(rundir=rd, timeout=3000, **kw)
         t_gen = _t.time() - t0
@@ -195,10 +229,10 @@ def run_plans(chk, rd, plans, observers, *, opts=None, module="Trace_Obs", shard
         picked = stride_sample(behs, stride, chk.seed)
         del behs
         o = dict(opts)
-        if kw["maxlen"] > 1 and "last_only" not in o and not observe_all:
+        if (kw["maxlen"] > 1 or final_only) and "last_only" not in o and not observe_all:
             o["last_only"] = True      # the prefixes are programs of the shallower corpora
         t0 = _t.time()
-        out = replay.run_corpus(picked, observers=observers, max_variants=maxvar, seed=chk.seed, opts=o)
+        out = replay.run_corpus(picked, observers=observers, max_variants=maxvar, seed=chk.seed, opts=o, group=group)
         t_replay = _t.time() - t0
         if out.machinery:
             raise tlc.MachineryError(f"spec/NumPy disagreement ({len(out.machinery)}): {out.machinery[0]}")
@@ -207,6 +241,9 @@ def run_plans(chk, rd, plans, observers, *, opts=None, module="Trace_Obs", shard
                 on_problem(dict(case, corpus=name), clause)
         raised = [e for e in out.events if e.get("fn", "").endswith("-raised")]
         mine = [e for e in out.events if not e.get("fn", "").endswith("-raised")]
+        if raised and len(raised) > len(mine) and len(raised) >= 20:
+            # vacuity guard: a corpus whose observations mostly cannot be taken exercises nothing
+            raise tlc.MachineryError(f"corpus {name}: {len(raised)} of {len(raised) + len(mine)} observations raised: {raised[0].get('err')}")
         if on_raised is not None:
             for e in raised:
                 on_raised(dict(e, **(e.pop("_ref", None) or {}), corpus=name))
@@ -271,6 +308,10 @@ def replay_case(chk, path, observers, module="Trace_Obs", opts=None, accept_verd
     beh = {"prog": case["prog"], "env": case.get("env") or _recompute_env(case["prog"])}
     emit = []
     try:
+        for h in case.get("history") or []:
+            # observations that depend on what this process did before (joint computation with an earlier program)
+            replay.replay_one({"prog": h["prog"], "env": h["env"]}, [tuple(tuple(ax) for ax in g) for g in h["grids"]], observers,
+                              compute_all=False, opts=dict(opts or {}, last_only=False), emit=[])
         replay.replay_one(beh, [tuple(tuple(ax) for ax in g) for g in case["grids"]], observers,
                           compute_all=False, opts=dict(opts or {}, last_only=False), emit=emit)
     except replay.SpecMismatch as ex:
